@@ -130,12 +130,20 @@ structure Out where
   rc : Rc
   main : Bytes
 
-/-- Effect of one decoded record on the main file (`rest` = log from the record's first byte):
-the body of the `switch` in `_rollforward_exl` except the savepoint/stop logic. -/
-def apply (cfg : Cfg) (r : Rec) (rest : Bytes) (m : Bytes) : Rc × Bytes :=
+/-- The bytes after the header that a record's handler looks at (`rest` = log from the record's first byte):
+the segment body a separator's checksum covers, the payload of a write. -/
+def body (r : Rec) (rest : Bytes) : Bytes :=
   match r with
-  | .sep crc len =>
-    if cfg.crcOn && crc != 0 && cfg.crc ((rest.drop sz_WBSEP).take len) != crc then (.corrupted, m) else (.ok, m)
+  | .sep _ len => (rest.drop sz_WBSEP).take len
+  | .write _ len _ => (rest.drop sz_WBWRITE).take len
+  | _ => []
+
+/-- Effect of one decoded record with body `b` on the main file: the body of the `switch` in
+`_rollforward_exl` except the savepoint/stop logic. -/
+def applyB (cfg : Cfg) (r : Rec) (b : Bytes) (m : Bytes) : Rc × Bytes :=
+  match r with
+  | .sep crc _ =>
+    if cfg.crcOn && crc != 0 && cfg.crc b != crc then (.corrupted, m) else (.ok, m)
   | .set val off len =>
     match memSet m off len val with
     | some m' => (.ok, m')
@@ -144,10 +152,9 @@ def apply (cfg : Cfg) (r : Rec) (rest : Bytes) (m : Bytes) : Rc × Bytes :=
     match memCopy m off len noff with
     | some m' => (.ok, m')
     | none => (.fault, m)
-  | .write crc len off =>
-    let data := (rest.drop sz_WBWRITE).take len
-    if cfg.crcOn && crc != 0 && cfg.crc data != crc then (.corrupted, m)
-    else match memWrite m off data with
+  | .write crc _ off =>
+    if cfg.crcOn && crc != 0 && cfg.crc b != crc then (.corrupted, m)
+    else match memWrite m off b with
       | some m' => (.ok, m')
       | none => (.fault, m)
   | .resize _ nsize =>
@@ -156,6 +163,8 @@ def apply (cfg : Cfg) (r : Rec) (rest : Bytes) (m : Bytes) : Rc × Bytes :=
     | none => (.ioerr, m)
   | .savepoint => (.ok, m)
   | .reset => (.ok, m)
+
+def apply (cfg : Cfg) (r : Rec) (rest : Bytes) (m : Bytes) : Rc × Bytes := applyB cfg r (body r rest) m
 
 /-- The main loop of `_rollforward_exl`.  `stop` is `fpos` as the C code holds it, `pos` is `rp - wmm`. -/
 def replayAux (cfg : Cfg) (stop : Nat) : Nat → Bytes → Nat → Bool → Bytes → Out
